@@ -85,31 +85,26 @@ theorem stepU {env : Env} {file : AFile} {G : List String} {P : Prog} {F : GFile
   rw [Sem.apply]; simp only [hl.fnSrc g hg hgG, AFn.toFn]
   obtain ⟨st, hfind, hlocal⟩ := hl.fnGo g hg hgG
   simp only [localOK, srcLocalOK, goLocalOK, Bool.and_eq_true, Bool.not_eq_true', compileFn_shape] at hlocal
-  obtain ⟨⟨⟨⟨hps, hrs⟩, hfrag⟩, hret⟩, ⟨⟨hnodup0, hblank⟩, hcallees⟩, hfnames⟩ := hlocal
-  have hnodup := of_decide_eq_true hnodup0
-  clear hnodup0
+  obtain ⟨⟨⟨⟨hps, hrs⟩, hfrag⟩, hret⟩, ⟨⟨hscoped, hblank⟩, hcallees⟩, hfnames⟩ := hlocal
   have hret' := scalarEq_eq hret
   rw [compileFn_shape] at hfind
   generalize hrn : "ret" ++ toString st.n = retName at *
   generalize hst1 : (st.next.check (okTy g.ret)).check (g.params.all fun p => okTy p.2) = st1 at *
   generalize hS : (compileA env (.assign retName) st1 g.body).1 = S at *
-  -- the locals of the compiled function
-  have hlocals : ndLocals
-      { name := fnName g.name, params := g.params.map fun p => (vn p.1, goTy p.2), ret := some (goTy g.ret),
-        body := .varDecl (gid retName) (goTy g.ret) none :: (S ++ [.ret (some (.var (gid retName) (goTy g.ret)))]) } =
-      (g.params.map fun p => vn p.1) ++ (gid retName :: ndDecls S) := by
-    simp [ndLocals, ndDecls_varDecl, ndDecls_append, ndDecls_ret, ndDecls, ndDeclsOf, List.map_map, Function.comp_def]
-  have hsubL : ∀ y, y ∈ (g.params.map fun p => vn p.1) ++ (gid retName :: ndDecls S) → y ∈ Goml.Dce.localsOf
+  -- the locals of the compiled function: parameters pairwise distinct, every declaration new in its scope
+  have hpn : List.map (·.1) (g.params.map fun p => (vn p.1, goTy p.2)) = g.params.map fun p => vn p.1 := by
+    simp [List.map_map, Function.comp_def]
+  simp only [scopedLocalsOK, Bool.and_eq_true, decide_eq_true_eq, hpn] at hscoped
+  obtain ⟨hndP, hsok0⟩ := hscoped
+  simp only [sokB, sokStmtB, Goml.Dce.declScope, Bool.and_eq_true, Bool.not_eq_true', List.contains_eq_mem,
+    decide_eq_false_iff_not, sokB_append] at hsok0
+  obtain ⟨⟨hretPn, _⟩, hsokS, _⟩ := hsok0
+  have hsubL : ∀ y, y ∈ (g.params.map fun p => vn p.1) ++ (gid retName :: Goml.Dce.allDecls S) → y ∈ Goml.Dce.localsOf
       { name := fnName g.name, params := g.params.map fun p => (vn p.1, goTy p.2), ret := some (goTy g.ret),
         body := .varDecl (gid retName) (goTy g.ret) none :: (S ++ [.ret (some (.var (gid retName) (goTy g.ret)))]) } := by
     intro y hy
-    rw [← hlocals] at hy
-    simp only [ndLocals, List.mem_append] at hy
-    simp only [Goml.Dce.localsOf, List.mem_append]
-    exact hy.imp id (ndDecls_sub _ y)
-  rw [hlocals] at hnodup
-  obtain ⟨hndP, hndR, hdisjPR⟩ := List.nodup_append.mp hnodup
-  obtain ⟨hretS, hndS⟩ := List.nodup_cons.mp hndR
+    simp only [Goml.Dce.localsOf, hpn, Goml.Dce.allDecls, Goml.Dce.declsOf, allDecls_append, List.append_nil]
+    simpa using hy
   -- environments
   have hlen := hargs.length
   have hrel0 : EnvRel env η (paramCtx g) (Sem.bindParams (g.params.map (·.1)) vs []) (goBind g.params gvs) := by
@@ -117,15 +112,14 @@ theorem stepU {env : Env} {file : AFile} {G : List String} {P : Prog} {F : GFile
       (fun p _ h => by simp [keys] at h)
     simpa [paramCtx] using this
   have hkeys0 : ∀ y, y ∈ keys (goBind g.params gvs) → y ∈ g.params.map (fun p => vn p.1) := keys_goBind_sub _ _
-  have hretP : ¬ gid retName ∈ keys (goBind g.params gvs) := fun h =>
-    hdisjPR _ (hkeys0 _ h) _ List.mem_cons_self rfl
+  have hretP : ¬ gid retName ∈ keys (goBind g.params gvs) := fun h => hretPn (hkeys0 _ h)
   let Bad : List String := "_" :: (calleesA ((paramCtx g).map (·.1)) g.body ++ (fnSigs file G).map (fun e => vn e.1))
   let env1 : GEnv := (gid retName, zero F (goTy g.ret)) :: goBind g.params gvs
   have hrel1 : EnvRel env η (paramCtx g) (Sem.bindParams (g.params.map (·.1)) vs []) env1 :=
     hrel0.go_agree (fun y ty hy => by
       obtain ⟨_, _, _, h2, _, _⟩ := hrel0.1 y ty hy
       exact lookup_cons_ne _ _ (fun e => hretP (e ▸ key_of_lookup_some h2)))
-  have hlocalsBad : ∀ y, y ∈ (g.params.map fun p => vn p.1) ++ (gid retName :: ndDecls S) → ¬ y ∈ Bad := by
+  have hlocalsBad : ∀ y, y ∈ (g.params.map fun p => vn p.1) ++ (gid retName :: Goml.Dce.allDecls S) → ¬ y ∈ Bad := by
     intro y hy hb
     have hyL := hsubL y hy
     simp only [Bad, List.mem_cons, List.mem_append] at hb
@@ -139,12 +133,11 @@ theorem stepU {env : Env} {file : AFile} {G : List String} {P : Prog} {F : GFile
       simp only [Bool.and_eq_true, Bool.not_eq_true', List.contains_eq_mem, decide_eq_false_iff_not] at this
       exact this.1 hyL
   have hinv1 : GInv Bad S env1 := by
-    refine ⟨hndS, fun y hy hk => ?_, fun y hy => hlocalsBad y (List.mem_append_right _ (List.mem_cons_of_mem _ hy)),
-      fun y hk => ?_⟩
-    · simp only [env1, Goml.Dce.keys_cons, List.mem_cons] at hk
-      rcases hk with rfl | hk
-      · exact hretS hy
-      · exact hdisjPR _ (hkeys0 _ hk) _ (List.mem_cons_of_mem _ hy) rfl
+    refine ⟨sokB_anti S (fun y hk => ?_) (sokB_weaken S (fun y hy => ?_) hsokS), fun y hk => ?_⟩
+    · simp only [env1, Goml.Dce.keys_cons, List.mem_cons] at hk ⊢
+      exact hk.imp id (hkeys0 y)
+    · have := hlocalsBad y (List.mem_append_right _ (List.mem_cons_of_mem _ hy))
+      simpa [notBad] using this
     · simp only [env1, Goml.Dce.keys_cons, List.mem_cons] at hk
       rcases hk with rfl | hk
       · exact hlocalsBad _ (List.mem_append_right _ List.mem_cons_self)
@@ -168,7 +161,7 @@ theorem stepU {env : Env} {file : AFile} {G : List String} {P : Prog} {F : GFile
     rintro ⟨η1, hle1, D, gv, gw', hb, h3, h4, h5, hD⟩
     simp only [post, env1, update_cons_self] at hb
     have hlk : lookupG (D ++ (gid retName, gv) :: goBind g.params gvs) (gid retName) = some gv := by
-      rw [lookup_append_right (fun h => hretS (hD _ h))]; exact lookup_cons_self _ _ _
+      rw [lookup_append_right (fun h => (sokB_top S _ hsokS _ (hD _ h)).2 List.mem_cons_self)]; exact lookup_cons_self _ _ _
     have hr : StmtS F (D ++ (gid retName, gv) :: goBind g.params gvs) gw'
         (.ret (some (.var (gid retName) (goTy g.ret)))) (.ok (D ++ (gid retName, gv) :: goBind g.params gvs, .ret gv) gw') :=
       stmt_ret (ev_var_some hlk)
